@@ -272,6 +272,33 @@ func costFamily(family string, n int) []costCall {
 			_, err := p.Outcome(context.Background(), ocr3types.OutcomeContext{SeqNr: 3, PreviousOutcome: prevB}, nil, aos)
 			return err
 		}}}
+	case "wide-channel": // the previous outcome holds ONE channel with n streams; four ordinary observations
+		prev := llo.Outcome{LifeCycleStage: llo.LifeCycleStageProduction, ObservationTimestampNanoseconds: 2_000_000_000,
+			ChannelDefinitions: llotypes.ChannelDefinitions{}, ValidAfterNanoseconds: map[llotypes.ChannelID]uint64{1: 1_000_000_000}}
+		sts := make([]llotypes.Stream, n)
+		for i := range sts {
+			sts[i] = llotypes.Stream{StreamID: uint32(i + 1), Aggregator: llotypes.AggregatorMedian}
+		}
+		prev.ChannelDefinitions[1] = llotypes.ChannelDefinition{ReportFormat: llotypes.ReportFormatJSON, Streams: sts}
+		prevB, err := p.OutcomeCodec.Encode(prev)
+		if err != nil {
+			panic(err)
+		}
+		var aos []types.AttributedObservation
+		total := len(prevB)
+		for i := 0; i < 4; i++ {
+			vals := llo.StreamValues{}
+			for k := 1; k <= 40; k++ {
+				vals[uint32(k)] = llo.ToDecimal(decimal.New(int64(1000+k+i), -2))
+			}
+			o := costEncodeObs(p, llo.Observation{UnixTimestampNanoseconds: 3_000_000_000 + uint64(i), StreamValues: vals})
+			aos = append(aos, types.AttributedObservation{Observation: o, Observer: commontypes.OracleID(i)})
+			total += len(o)
+		}
+		return []costCall{{"Outcome", total, func() error {
+			_, err := p.Outcome(context.Background(), ocr3types.OutcomeContext{SeqNr: 3, PreviousOutcome: prevB}, nil, aos)
+			return err
+		}}}
 	case "vote-lists": // n remove votes
 		ids := make([]uint32, n)
 		for i := range ids {
@@ -636,7 +663,7 @@ func init() {
 	})
 	RegGen("C19", "cost.measure (implementation only): per family a size-doubling series measured in child processes — nested timestamped values up to 1 MiB, "+
 		"up to 70 000 stream values / quotes, up to 200 000 remove votes and channel definitions, coefficients up to 1 MiB, exponent gaps up to 2^20, "+
-		"errors joined in a loop and formatted (5 definitions × up to 10 000 zero-aggregator streams, up to 4 000 failing definitions, up to 64 000 undecodable stream values in one observation, up to 2 000 channels aggregating one timestamped stream with a long-digit byzantine value, up to 9 998 failing EVM payload values, mercury v3 Report with every consensus failing), "+
+		"errors joined in a loop and formatted (5 definitions × up to 10 000 zero-aggregator streams, up to 4 000 failing definitions, up to 64 000 undecodable stream values in one observation, up to 2 000 channels aggregating one timestamped stream with a long-digit byzantine value, one channel of up to 10 000 streams in the previous outcome, up to 9 998 failing EVM payload values, mercury v3 Report with every consensus failing), "+
 		"and the F2 witness capped at 3 s; callbacks: ValidateObservation, ObservationCodec.Decode, Median/Quote/ModeAggregator, Outcome, Reports, Quote.IsValid, evm.CalculateFee; "+
 		"non-trivial = at least one callback measured", genC19Measure)
 	RegMonitor("C19", monC19Measure)
@@ -675,6 +702,7 @@ func genC19Measure(g *G) {
 		m("verify-errors-defs", append(doubling(125, 2000), 4000), nil)
 		m("decode-errors", doubling(1000, 64000), nil)
 		m("shared-tsv-stream", []int{250, 500, 1000, 2000}, nil)
+		m("wide-channel", []int{1250, 2500, 5000, 10000}, nil)
 		m("evm-payload-errors", append(doubling(125, 8000), 9998), nil)
 		m("mercury-report-errors", []int{1}, nil)
 	} else {
@@ -691,6 +719,7 @@ func genC19Measure(g *G) {
 		m("verify-errors-defs", []int{500, 2000}, nil)
 		m("decode-errors", []int{2000, 8000, 64000}, nil)
 		m("shared-tsv-stream", []int{500, 2000}, nil)
+		m("wide-channel", []int{2500, 10000}, nil)
 		m("evm-payload-errors", []int{500, 2000, 9998}, nil)
 		m("mercury-report-errors", []int{1}, nil)
 	}
